@@ -14,6 +14,9 @@ def declare(c):
                      'file only while a recovery is recorded as owed, and is zero when an extruding move is forwarded', floor=50)
     c.rule('C05.R3', 'generated firmware commands: G10 for retract / G11 for recover, parameters taken from the original command, '
                      'parity preserved', floor=1)
+    c.rule('C05.R5', 'a generated E-only retract / recover pair (G92 E, G1 E) moves exactly the recorded length: both words are '
+                     'file-unit values of native positions that differ by the recorded amount, in every unit system, and the '
+                     'tracked E is left where it was', floor=2)
     c.rule('C05.R4', 'the parameter-extraction regex matches every normalised command text (a non-match would splice the whole '
                      'command into the generated one)', floor=1)
 
@@ -73,6 +76,8 @@ def regex_rule(ctx):
 def run(ctx, tier):
     declare(ctx)
     machine_rule(ctx, tier)
+    from .rules_c04 import addcommands_rule
+    addcommands_rule(ctx, 'C05.R5', 'C05.R5')
     regex_rule(ctx)
     ctx.assume('matched equal-length cycles, E-only or firmware, not mixed (the property quantifier); travel moves that '
                'retract while moving are outside it')
